@@ -40,6 +40,7 @@ type Profile struct {
 	InjectAfterOnly      bool // schedule injected calls only after EndBlock / after Commit (engines that serve them while drawing, C19)
 	Crowd                int  // percent of the cases run with a crowd (140 users, full blocks): the cache sizes of the ledgers (128) are exceeded within one block
 	IsCrowd              bool
+	CrowdUsers           int    // size of the crowd when not the default 140
 	GasFaults            bool   // half of the deliberate faults are gas/price faults (C16)
 	BlockGasBoundary     bool   // now and then a contract-path tx asks for exactly the block gas limit (or one more/less)
 	LiveInject           bool   // only prepare fresh valid txs per block; the engine serves them as CheckTx while it drives the primary
@@ -138,9 +139,10 @@ type GenSource struct {
 	fresh   [][]byte         // valid txs built against the state committed before the current block (never delivered)
 	offline map[string]int64 // validator address -> offline (not signing) up to and including this height
 	// the delegatee of the latest stake-type tx and the height it was generated for
-	lastStakeTo []byte
-	lastStakeH  int64
-	quiet       int // number of almost empty blocks at the start (marathon variant)
+	lastStakeTo   []byte
+	lastStakeH    int64
+	lastStakeFrom *Actor
+	quiet         int // number of almost empty blocks at the start (marathon variant)
 	// number of parameter changes the model had seen when injections were last generated
 	paramsChangedSeen int
 	// hooks for engines that extend the schedule
@@ -239,6 +241,11 @@ func NewGenSource(t *rapid.T, p *Profile) *GenSource {
 		q.MaxVals = 3
 		q.MinBlocks, q.MaxBlocks = 8, 14
 		q.MaxTxs = 70
+		if p.CrowdUsers > 0 {
+			// a big crowd: several hundred delegators behind a handful of validators
+			q.Users, q.MaxTxs, q.MaxVals = p.CrowdUsers, p.CrowdUsers/2, 4
+			q.MinBlocks, q.MaxBlocks = 7, 10
+		}
 		q.PFault = 3
 		q.PEvidence, q.PAbsent = 2, 2
 		q.W = map[string]int{"transfer": 14, "stake": 52, "unstake": 26, "withdraw": 6, "setdoc": 1, "propose": 1, "vote": 1}
@@ -752,6 +759,12 @@ func (s *GenSource) genTx(w *World, b *Block) ([]byte, string) {
 		}
 		if burst && pct(t, 50, "sameDelegateeAgain") {
 			sp.to = s.lastStakeTo
+		} else if burst && s.P.IsCrowd && s.lastStakeFrom != nil && len(dk) > 1 && pct(t, 60, "sameStakerElsewhere") {
+			// somebody spreading stake over several validators in one block
+			sp.from = s.lastStakeFrom
+			for i := 0; i < 4 && string(sp.to) == string(s.lastStakeTo); i++ {
+				sp.to = unhx(pick(t, dk, "otherDelegatee"))
+			}
 		}
 		units := uint64(pick(t, []int{1, 1, 2, 3, 5, 10, 50}, "units"))
 		if s.P.IsCrowd {
@@ -786,7 +799,7 @@ func (s *GenSource) genTx(w *World, b *Block) ([]byte, string) {
 			}
 		}
 		sp.payload = &ctypes.TrxPayloadStaking{}
-		s.lastStakeTo, s.lastStakeH = sp.to, h
+		s.lastStakeTo, s.lastStakeH, s.lastStakeFrom = sp.to, h, sp.from
 		sp.note = fmt.Sprintf("stake %s->%x amt=%s", sp.from.Name, sp.to[:4], sp.amount.Dec())
 	case "unstake":
 		sp.typ = ctypes.TRX_UNSTAKING
